@@ -40,4 +40,15 @@ if ! go build -o "$SCRATCH/$lc" "./harness/$lc" 2> "$SCRATCH/build.log"; then
   echo "CHECK-ERROR: build of harness/$lc failed" >&2
   exit 2
 fi
+if [ -f "harness/$lc/RACE" ] && [ $# -eq 0 ]; then
+  # free-running pass of the same harness under the race detector (see harness/<id>/RACE)
+  if go build -race -o "$SCRATCH/$lc-race" "./harness/$lc" 2> "$SCRATCH/build-race.log"; then
+    GORACE="halt_on_error=0" timeout -k 5 300 "$SCRATCH/$lc-race" "$TIER" race 2> "$SCRATCH/race.stderr"
+    echo $? > "$SCRATCH/race.exit"
+  else
+    cat "$SCRATCH/build-race.log" >&2
+    echo "CHECK-ERROR: -race build of harness/$lc failed" >&2
+    exit 2
+  fi
+fi
 "$SCRATCH/$lc" "$TIER" "$@"
